@@ -182,6 +182,89 @@ def set_roundtrip(ctx: Ctx, sets) -> int:
     return n
 
 
+def history_batch(args):
+    """KeySetHistory.tla behaviours on a real KeySet: materials 1..6 are six different EC P-256 keys; a lookup is exercised through
+    get_by_kid, through verification of a token signed by the material the spec expects, and through signing with that kid"""
+    hists, seed = args
+    from joserfc import jws
+    from joserfc.jwk import KeySet
+    from joserfc.errors import InvalidKeyIdError
+    mats = {}
+
+    def mat(m):
+        if m not in mats:
+            mats[m] = K.get("EC:P-256", m - 1) if m <= 2 else R.gen_like(K.get("EC:P-256"))
+        return mats[m]
+    out = []
+    n = 0
+    for hi, h in enumerate(hists):
+        init = h[0].get("set") if h[0]["op"] == "lookup" else None
+        # reconstruct the initial set: replay the mutations backwards is unnecessary - the spec's Init is keys a,b,c with materials 1,2,3
+        first_lookup_set = next((s["set"] for s in h if s["op"] == "lookup"), None)
+        nkeys = None
+        # initial size: the number of keys before any mutation = recorded in the first step's set if it is a lookup, else derive by simulation
+        size = None
+        for cand in (1, 2, 3):
+            keys = [{"kid": "abc"[i], "mat": i + 1} for i in range(cand)]
+            ok = True
+            for st in h:
+                if st["op"] == "lookup":
+                    if st["set"] != keys: ok = False; break
+                elif st["op"] == "remove":
+                    if st["i"] > len(keys): ok = False; break
+                    keys = keys[:st["i"] - 1] + keys[st["i"]:]
+                elif st["op"] == "replace":
+                    if st["i"] > len(keys): ok = False; break
+                    keys = [dict(k) for k in keys]; keys[st["i"] - 1]["mat"] = st["mat"]
+                elif st["op"] == "append":
+                    keys = keys + [{"kid": st["kid"], "mat": st["mat"]}]
+            if ok:
+                size = cand; break
+        if size is None:
+            out.append((hi, "machinery: cannot reconstruct initial set")); continue
+        ks = KeySet([J.fresh_jkey({**mat(i + 1), "kid": "abc"[i]}) for i in range(size)])
+        pubs = lambda m: J.pub(mat(m))
+        for si, st in enumerate(h):
+            n += 1
+            try:
+                if st["op"] == "remove":
+                    del ks.keys[st["i"] - 1]
+                elif st["op"] == "replace":
+                    old = ks.keys[st["i"] - 1]
+                    ks.keys[st["i"] - 1] = J.fresh_jkey({**mat(st["mat"]), "kid": old.kid})
+                elif st["op"] == "append":
+                    ks.keys.append(J.fresh_jkey({**mat(st["mat"]), "kid": st["kid"]}))
+                else:
+                    kid, want = st["kid"], st["want"]
+                    try:
+                        got = ks.get_by_kid(kid)
+                        gm = next((m for m in mats if R.public_jwk(mats[m])["x"] == got.as_dict()["x"]), -1)
+                    except InvalidKeyIdError:
+                        gm = 0
+                    if gm != want:
+                        out.append((hi, f"step {si + 1}: get_by_kid({kid}) resolved material {gm}, the set now holds {want or 'no such key'}")); break
+                    # consuming a token that names kid
+                    signer = mat(want) if want else mat(1)
+                    tok = R.jws_compact(R.jdump({"alg": "ES256", "kid": kid}), b"p", "ES256", signer)
+                    try:
+                        jws.deserialize_compact(tok, ks, algorithms=["ES256"]); res = "ok"
+                    except InvalidKeyIdError:
+                        res = "invalid_key_id"
+                    except Exception as e:  # noqa
+                        res = "fail:" + type(e).__name__
+                    if res != ("ok" if want else "invalid_key_id"):
+                        out.append((hi, f"step {si + 1}: verification with kid {kid} gave {res}, the set now holds {want or 'no such key'}")); break
+                    if want:
+                        t2 = jws.serialize_compact({"alg": "ES256", "kid": kid}, b"q", ks, algorithms=["ES256"])
+                        try:
+                            R.jws_verify_compact(t2, pubs(want))
+                        except Exception:  # noqa
+                            out.append((hi, f"step {si + 1}: signing with kid {kid} did not use the key the set now holds")); break
+            except Exception as e:  # noqa
+                out.append((hi, f"step {si + 1}: {st['op']} raised {type(e).__name__}")); break
+    return out, n
+
+
 def run(ctx: Ctx) -> None:
     thorough = ctx.tier == "thorough"
     rnd = random.Random(ctx.seed)
@@ -233,7 +316,25 @@ def run(ctx: Ctx) -> None:
     multi = [i for i, c in enumerate(cases) if c["s"]["op"] == "produce" and c["s"]["kid"] == "absent" and len(c["candidates"]) > 1]
     ctx.notes.update(abstract_scenarios_total=total, random_pick_scenarios=len(multi),
                      random_pick_scenarios_with_more_than_one_key_seen=sum(1 for i in multi if len(picked.get(i, ())) > 1))
-    ctx.traces = len(cases)
+    rh = ctx.tlc("KeySetHistory", timeout=300)
+    ctx.sensitivity("KeySetHistory", "KeySetHistory_dev_MemoisedLookup")
+    ctx.sensitivity("KeySetHistory", "KeySetHistory_dev_FirstKeyFallback")
+    hs = list({json.dumps(h, sort_keys=True): h for h in rh.cases}.values())
+    if len(hs) < 5000:
+        raise MachineryError("KeySetHistory export too small")
+    if not thorough:
+        hs = rnd.sample(hs, 2500)
+    hres = pmap(history_batch, [(hs[i::16], ctx.seed) for i in range(16)], chunksize=1)
+    for k, (bad, n) in enumerate(hres):
+        ctx.evaluations += n
+        for hi, what in bad:
+            if what.startswith("machinery"):
+                raise MachineryError(what)
+            h = hs[k::16][hi]
+            ops = ";".join(f"{st['op']}({st.get('kid', st.get('i', ''))})" for st in h)
+            ctx.violation(f"keyset-history:[{ops}] -> {what.split(':', 1)[1].strip()[:70]}", {"history": h, "problem": what})
+    ctx.notes["keyset_histories"] = len(hs)
+    ctx.traces = len(cases) + len(hs)
     ctx.exhaustive = thorough
     ctx.rule = ("TLC enumerates scenarios over key sets of 1..3 distinct slots (oct, RSA, two EC, OKP), 4 algorithms per side, kid selector, position, "
                 "serialization, set/callable, explicit/thumbprint kids, operation and signer; each scenario = one behaviour of guess_key (resolve, use) "
